@@ -14,6 +14,7 @@ import (
 	"log/slog"
 	"os"
 	"sort"
+	"strconv"
 	"strings"
 	"sync"
 	"time"
@@ -45,6 +46,7 @@ type vzConfig struct {
 	maxSteps         int
 	// fault rates, per thousand scheduler steps (0 = kind disabled in this run)
 	rDup, rReplay, rEarlyTimer, rCrash, rPartition, rCorrupt, rEquivocate, rStall int
+	rCancel                                                                       int // cancel the context of a message handler in flight (a p2p validator deadline)
 	oracles                                                                       map[string]bool
 }
 
@@ -89,9 +91,11 @@ type vzWorld struct {
 
 	lastFaultStep int
 	handlerSends  map[string]int
-	endReason     string // why run() returned: done, quiescent (nothing left to do), cutoff (no progress for long), limit
-	beyondModel   bool   // validators holding >= 1/3 of the power have equivocated in some round
-	progressAt    int    // step of the last finalization anywhere (0 = none yet)
+	handlerCancel map[int]context.CancelFunc // running message handlers, by message id
+	handlerLast   map[int]string             // the request each running handler made last
+	endReason     string                     // why run() returned: done, quiescent (nothing left to do), cutoff (no progress for long), limit
+	beyondModel   bool                       // validators holding >= 1/3 of the power have equivocated in some round
+	progressAt    int                        // step of the last finalization anywhere (0 = none yet)
 	notes         []string
 	seenProposals map[string][]string // "h/r" -> proposal hashes seen on the wire
 	lastErr       map[string]string   // node ident -> last ERROR log line of its engine
@@ -201,7 +205,7 @@ func (w *vzWorld) newLogger() *slog.Logger {
 }
 
 func newVzWorld(s *vsimcore.Sim, cfg vzConfig) *vzWorld {
-	w := &vzWorld{s: s, cfg: cfg, handlerSends: map[string]int{}, lastErr: map[string]string{}, blocked: map[[2]int]bool{}, stalled: map[int]int{}, seenProposals: map[string][]string{}}
+	w := &vzWorld{s: s, cfg: cfg, handlerSends: map[string]int{}, handlerCancel: map[int]context.CancelFunc{}, handlerLast: map[int]string{}, lastErr: map[string]string{}, blocked: map[[2]int]bool{}, stalled: map[int]int{}, seenProposals: map[string][]string{}}
 	privVals := tmconsensustest.DeterministicValidatorsEd25519(cfg.nVal)
 	for i := range privVals {
 		privVals[i].Val.Power = cfg.powers[i]
@@ -260,6 +264,11 @@ func (w *vzWorld) installHooks() {
 			w.mu.Lock()
 			w.handlerSends[id]++
 			n := w.handlerSends[id]
+			if i := strings.LastIndex(id, ".m"); i >= 0 {
+				if mid, err := strconv.Atoi(id[i+2:]); err == nil {
+					w.handlerLast[mid] = label
+				}
+			}
 			w.mu.Unlock()
 			if n == vzHandlerSendLimit {
 				w.orc.violate("C09", "handler-never-returns", "%s: the handler of one message has made %d requests to the kernel without returning (last: %s)", id, n, label)
@@ -839,7 +848,17 @@ func (w *vzWorld) deliver(m *vzMsg) {
 		if e == nil {
 			return
 		}
-		ctx := vsimcore.WithIdent(ndctx, fmt.Sprintf("%s.m%d", ident, m.id))
+		ctx, cancelHandler := context.WithCancel(vsimcore.WithIdent(ndctx, fmt.Sprintf("%s.m%d", ident, m.id)))
+		w.mu.Lock()
+		w.handlerCancel[m.id] = cancelHandler
+		w.mu.Unlock()
+		defer func() {
+			w.mu.Lock()
+			delete(w.handlerCancel, m.id)
+			delete(w.handlerLast, m.id)
+			w.mu.Unlock()
+			cancelHandler()
+		}()
 		var cm tmcodec.ConsensusMessage
 		if err := w.codec.UnmarshalConsensusMessage(m.data, &cm); err != nil {
 			w.s.Logf("m%d undecodable at n%d", m.id, m.to)
@@ -1024,7 +1043,7 @@ func (w *vzWorld) run(done func() bool, extra func() []vsimcore.Action) (stalled
 func (w *vzWorld) maybeFault(live []*vzTimer, nActs int) (fireTimerEarly bool) {
 	s := w.s
 	cfg := w.cfg
-	rates := []int{cfg.rDup, cfg.rCorrupt, cfg.rPartition, cfg.rStall, cfg.rCrash, cfg.rEarlyTimer}
+	rates := []int{cfg.rDup, cfg.rCorrupt, cfg.rPartition, cfg.rStall, cfg.rCrash, cfg.rEarlyTimer, cfg.rCancel}
 	sum := 0
 	for _, r := range rates {
 		sum += r
@@ -1086,6 +1105,36 @@ func (w *vzWorld) maybeFault(live []*vzTimer, nActs int) (fireTimerEarly bool) {
 			s.Fault("partition")
 			s.Logf("fault: partition %v", side)
 		}
+	case 7: // the context of a handler in flight ends (the caller's deadline): the engine must keep serving
+		if len(w.handlerCancel) == 0 {
+			return false
+		}
+		ids := make([]int, 0, len(w.handlerCancel))
+		for id := range w.handlerCancel {
+			ids = append(ids, id)
+		}
+		sort.Ints(ids)
+		// prefer handlers that have a request with the kernel right now (the interesting instants are
+		// between handing a request over and reading its answer)
+		wts := make([]int, len(ids))
+		for i, id := range ids {
+			wts[i] = 1
+			if l := w.handlerLast[id]; strings.Contains(l, "Future") || strings.Contains(l, "Add") {
+				wts[i] = 6
+			}
+		}
+		id := ids[s.ChooseW("cancel-which", wts)]
+		w.handlerCancel[id]()
+		if strings.Contains(w.handlerLast[id], "Future") {
+			s.Probe("cancelled_during_future_vote_request")
+		}
+		if w.adv != nil {
+			// the sender's validation failed: peers will offer the same things again
+			w.adv.regossips = map[uint64]int{}
+			w.adv.resendPending = true
+		}
+		s.Fault("handler_context_cancelled")
+		s.Logf("fault: the context of the handler of m%d is cancelled", id)
 	case 4: // a node stalls for a while
 		n := s.Choose("stall-node", len(w.nodes))
 		w.stalled[n] = 20 + s.Choose("stall-len", 200)
@@ -1119,9 +1168,10 @@ func (w *vzWorld) finalChecks() {
 			w.orc.checkStoredHeadersIntact(nd)
 		}
 	}
-	if !w.cfg.oracles["C11"] || (w.endReason != "done" && w.endReason != "quiescent") || w.s.Failed() {
+	if !(w.cfg.oracles["C11"] || w.cfg.oracles["C09"]) || w.s.Failed() || w.s.Expired() {
 		return
 	}
+	current := w.cfg.oracles["C11"] && (w.endReason == "done" || w.endReason == "quiescent")
 	// inputs have stopped: ask each kernel for its own views and compare with what gossip last received
 	for _, nd := range w.nodes {
 		w.mu.Lock()
@@ -1157,7 +1207,13 @@ func (w *vzWorld) finalChecks() {
 			}
 		}
 		vsimcore.Wait()
-		if got && sn.err == nil {
+		if !got && ctx.Err() == nil {
+			// C09: the mirror kernel of a running engine answers a snapshot request once everything
+			// that was parked has been let through; if it does not, it is blocked for good
+			w.orc.violate("C09", "mirror-kernel-unresponsive", "%s: the mirror kernel does not answer a view snapshot request although the engine is running and nothing is held back (it is blocked forever somewhere)", nd.ident())
+			continue
+		}
+		if current && got && sn.err == nil {
 			// everything that was parked has run: the consumers have been served whatever was pending
 			for i := 0; i < 50; i++ {
 				vsimcore.Wait()
